@@ -3,6 +3,9 @@ import CfrVerif.Proofs.FrontierExt
 import CfrVerif.Proofs.GameWF
 import CfrVerif.Proofs.LocksWide
 import CfrVerif.Proofs.LocksPerm
+import CfrVerif.Proofs.LocksVanillaPerm
+--! audit CfrVerif/Proofs/LocksVanilla.lean
+--! audit CfrVerif/Proofs/LocksVanillaPerm.lean
 --! audit CfrVerif/Proofs/Locks.lean
 --! audit CfrVerif/Proofs/LocksCheck.lean
 --! audit CfrVerif/Proofs/LocksWide.lean
@@ -23,6 +26,13 @@ over the interleaving model of the pool's mutexes (`Model/Locks.lean`): in every
 any thread schedule can reach, no `try_lock().unwrap()` finds its mutex held
 (`external_workers_never_meet`, `external_closing_never_panics`), no configuration is a deadlock
 and every schedule ends (`external_pool_never_deadlocks`).
+
+For the chance-sampled method "visits exactly the sampled part of the tree once per pass" is also
+a count: the frontier's tasks and the closing recursion together update the average strategy of
+every infoset (take its mutex) exactly once per node of the infoset on the sampled part of the tree,
+for every task target (`vanilla_multi_locks_eq_visits`, `vtrace_acqCount` in
+`Proofs/LocksVanilla*.lean`, audited with this property), and no schedule of those mutex operations
+panics or deadlocks (`vanilla_pool_never_deadlocks`).
 -/
 set_option linter.unusedSectionVars false
 namespace Cfr
